@@ -261,12 +261,13 @@ def owner():
     return '\n'.join(o) + '\n'
 
 
-def view():
+def view(S='unsigned_char'):
     """xdynamic_bitset_view<X> over caller memory"""
+    PA = {'unsigned_char': 'puc', 'unsigned_short': 'pus', 'unsigned_int': 'pu', 'unsigned_long': 'pul'}[S]
     o = []
     B = '(&self->__base_0)'
     D, N, SZ = 'self->__base_0.m_buffer.storage_.ptr', 'self->__base_0.m_buffer.storage_.size', 'self->__base_0.m_size'
-    o.append('#define XV_CONTRACT_bv__ctor__puc_ul \\\n'
+    o.append('#define XV_CONTRACT_bv__ctor__' + PA + '_ul \\\n'
              '  __CPROVER_requires(__CPROVER_is_fresh(self, sizeof(*self)) && size <= XV_MAXBITS && __CPROVER_is_fresh(ptr, CEILW(size) * sizeof(xv_blk))) \\\n'
              '  __CPROVER_requires(xv_g < size ==> xv_a0 == (((unsigned long)ptr[GBLK] >> GOFF) & 1)) \\\n'
              '  /* the view covers exactly the blocks of the caller; its valid bits are the caller\'s bits; the unused tail of the last block is zeroed */ \\\n'
@@ -288,5 +289,5 @@ def generate(S='unsigned_char'):
     t += base('bsb', DV, NV, S, [('bsb', DV, 'bs'), ('bvb', DS, 'bv')])
     t += base('bvb', DS, NS, S, [('bvb', DS, 'bv')])
     t += refs('bsref') + refs('bscref') + refs('bvref') + refs('bvcref')
-    t += owner() + view()
+    t += owner() + view(S)
     return t
